@@ -25,7 +25,7 @@ Arguments wle_result {A p pl w r w'}.
 
 Definition after_neg (w1 : world) (f : nat) (o : outcome) : world :=
   mkW (w_ops w1) (w_script w1) (w_tls w1) (w_tlslayer w1) (w_hs w1) (w_wdead w1)
-      (N.lor (w_bits w1) (fst o)) (w_calls w1) (ENegOk f (fst o) (snd o) :: w_trace w1).
+      (N.lor (w_bits w1) (N.ldiff (fst o) st_Ready)) (w_calls w1) (ENegOk f (fst o) (snd o) :: w_trace w1).
 
 Lemma run_feature_interp pl n recv f ft pre w :
   interp pl (run_feature n recv f ft pre) w =
@@ -141,62 +141,43 @@ Proof.
   split; [eapply not_ok_failed; eassumption|]. eapply run_err_not_ready; eassumption.
 Qed.
 
-Lemma cut_agrees k c hs : agree_below k (mkPlan FNone c hs) (mkPlan (FCut k) c hs).
+Lemma cut_agrees k c e d hs : agree_below k (mkPlan FNone c e d hs) (mkPlan (FCut k) c e d hs).
 Proof.
-  split; [|split; [intros w0 _; reflexivity | reflexivity]]. intros i Hi. unfold p_fail. cbn.
-  symmetry. apply Nat.leb_gt. exact Hi.
+  split; [|split; [intros w0 _; reflexivity | reflexivity]]. intros i Hi. unfold p_fail. cbn [p_fault fault_fail].
+  replace (k <=? i) with false by (symmetry; apply Nat.leb_gt; exact Hi). reflexivity.
 Qed.
 
-Lemma transient_agrees k c hs : agree_below k (mkPlan FNone c hs) (mkPlan (FTransient k) c hs).
+Lemma transient_agrees k c e d hs : agree_below k (mkPlan FNone c e d hs) (mkPlan (FTransient k) c e d hs).
 Proof.
-  split; [|split; [intros w0 _; reflexivity | reflexivity]]. intros i Hi. unfold p_fail. cbn.
-  symmetry. apply Nat.eqb_neq. lia.
-Qed.
-
-Lemma blocked_agrees c hs : agree_below c (mkPlan FNone None hs) (mkPlan (FTransient c) (Some c) hs).
-Proof.
-  split; [|split; [|reflexivity]].
-  - intros i Hi. unfold p_fail. cbn. symmetry. apply Nat.eqb_neq. lia.
-  - intros w0 Hw0. unfold ctx_done. cbn. symmetry. apply Nat.ltb_ge. exact Hw0.
+  split; [|split; [intros w0 _; reflexivity | reflexivity]]. intros i Hi. unfold p_fail. cbn [p_fault fault_fail].
+  replace (i =? k) with false by (symmetry; apply Nat.eqb_neq; lia). reflexivity.
 Qed.
 
 Lemma cut_fails_closed :
-  forall cfg c hs bits clear tls calls k ru wu rc wc,
-    run cfg (mkPlan FNone c hs) bits clear tls calls = (ru, wu) ->
-    run cfg (mkPlan (FCut k) c hs) bits clear tls calls = (rc, wc) ->
+  forall cfg c e d hs bits clear tls calls k ru wu rc wc,
+    run cfg (mkPlan FNone c e d hs) bits clear tls calls = (ru, wu) ->
+    run cfg (mkPlan (FCut k) c e d hs) bits clear tls calls = (rc, wc) ->
     k < w_ops wu ->
     failed rc /\ is_ready (w_bits wc) = false.
 Proof.
-  intros cfg c hs bits clear tls calls k ru wu rc wc Hu Hc Hk.
+  intros cfg c e d hs bits clear tls calls k ru wu rc wc Hu Hc Hk.
   eapply fault_fails_closed; [apply cut_agrees | | exact Hu | exact Hc | exact Hk].
-  unfold p_fail. cbn. apply Nat.leb_refl.
+  unfold p_fail. cbn [p_fault fault_fail]. rewrite Nat.leb_refl. reflexivity.
 Qed.
 
 Lemma transient_fails_closed :
-  forall cfg c hs bits clear tls calls k ru wu rc wc,
-    run cfg (mkPlan FNone c hs) bits clear tls calls = (ru, wu) ->
-    run cfg (mkPlan (FTransient k) c hs) bits clear tls calls = (rc, wc) ->
+  forall cfg c e d hs bits clear tls calls k ru wu rc wc,
+    run cfg (mkPlan FNone c e d hs) bits clear tls calls = (ru, wu) ->
+    run cfg (mkPlan (FTransient k) c e d hs) bits clear tls calls = (rc, wc) ->
     k < w_ops wu ->
     failed rc /\ is_ready (w_bits wc) = false.
 Proof.
-  intros cfg c hs bits clear tls calls k ru wu rc wc Hu Hc Hk.
+  intros cfg c e d hs bits clear tls calls k ru wu rc wc Hu Hc Hk.
   eapply fault_fails_closed; [apply transient_agrees | | exact Hu | exact Hc | exact Hk].
-  unfold p_fail. cbn. apply Nat.eqb_refl.
+  unfold p_fail. cbn [p_fault fault_fail]. rewrite Nat.eqb_refl. reflexivity.
 Qed.
 
-Lemma cancel_while_blocked_fails :
-  forall cfg hs bits clear tls calls c ru wu rc wc,
-    run cfg (mkPlan FNone None hs) bits clear tls calls = (ru, wu) ->
-    run cfg (mkPlan (FTransient c) (Some c) hs) bits clear tls calls = (rc, wc) ->
-    c < w_ops wu ->
-    failed rc /\ is_ready (w_bits wc) = false.
-Proof.
-  intros cfg hs bits clear tls calls c ru wu rc wc Hu Hc Hk.
-  eapply fault_fails_closed; [apply blocked_agrees | | exact Hu | exact Hc | exact Hk].
-  unfold p_fail. cbn. apply Nat.eqb_refl.
-Qed.
-
-(* ------------------------------------------------------------------ cancellation between two operations *)
+(* ------------------------------------------------------------------ cancellation *)
 
 Lemma session_zero pl n cfg ns w :
   interp pl (session n 0 cfg ns) w = if is_ready (w_bits w) then (ROk tt, w) else (RFuel, w).
@@ -225,24 +206,31 @@ Proof.
       subst w'. cbn [w_ops w_trace]. rewrite do_restart_ops, do_restart_trace. cbn. left. reflexivity.
 Qed.
 
-Lemma cancel_fails cfg f hs bits clear tls calls c ru wu rc wc :
-  run cfg (mkPlan f None hs) bits clear tls calls = (ru, wu) ->
+Lemma cancel_fails cfg f e d hs bits clear tls calls c ru wu rc wc :
+  run cfg (mkPlan f None e d hs) bits clear tls calls = (ru, wu) ->
   c < w_ops wu ->
-  run cfg (mkPlan f (Some c) hs) bits clear tls calls = (rc, wc) ->
+  run cfg (mkPlan f (Some c) e d hs) bits clear tls calls = (rc, wc) ->
   failed rc /\ is_ready (w_bits wc) = false.
 Proof.
   intros Hu Hk Hc.
   assert (Hne : rc <> ROk tt).
   { intro E. subst rc. rewrite run_unfold in Hu, Hc. apply finish_ok in Hc.
-    destruct (interp_cancel (P := fun _ => False) f hs c (session_wok (fun _ => False) (fuel_of clear tls) cfg (fuel_of clear tls) (mkNS true false))
-                (init_world bits clear tls calls)) as [He|[Heq [new [Hn Hp]]]].
-    - fold (the_session cfg clear tls) in He. rewrite Hc in He. discriminate.
-    - fold (the_session cfg clear tls) in Heq, Hn. rewrite Hc in Heq.
-      assert (Hwu : wu = wc).
-      { rewrite <- Heq in Hu. cbn in Hu. inversion Hu. reflexivity. }
-      subst wu. rewrite <- Heq in Hn. cbn [snd] in Hn. cbn [init_world w_trace] in Hn. rewrite app_nil_r in Hn.
-      pose proof Hc as Hs. apply session_ok_ctx in Hs. destruct Hs as [[Hw _]|Hin].
-      + subst wc. cbn in Hk. lia.
-      + rewrite Hn in Hin. specialize (Hp _ Hin). lia. }
+    destruct (@interp_cancel_ok unit (the_session cfg clear tls) (mkPlan f (Some c) e d hs) c eq_refl
+                (session_strict _ _ _ _) _ _ _ Hc) as [H0 [new [Hn Hp]]].
+    change (uncancelled (mkPlan f (Some c) e d hs)) with (mkPlan f None e d hs) in H0.
+    rewrite H0 in Hu. cbn in Hu. inversion Hu; subst wu.
+    cbn [init_world w_trace] in Hn. rewrite app_nil_r in Hn.
+    pose proof Hc as Hs. apply session_ok_ctx in Hs. destruct Hs as [[Hw _]|Hin].
+    - subst wc. cbn in Hk. lia.
+    - rewrite Hn in Hin. specialize (Hp _ Hin). lia. }
   split; [eapply not_ok_failed; eassumption|]. eapply run_err_not_ready; eassumption.
 Qed.
+
+(* the cancellation interrupts operation c on a transport with deadlines *)
+Lemma cancel_while_blocked_fails cfg f hs bits clear tls calls c ru wu rc wc :
+  run cfg (mkPlan f None true true hs) bits clear tls calls = (ru, wu) ->
+  c < w_ops wu ->
+  run cfg (mkPlan f (Some c) true true hs) bits clear tls calls = (rc, wc) ->
+  failed rc /\ is_ready (w_bits wc) = false.
+Proof. apply cancel_fails. Qed.
+
